@@ -5,10 +5,10 @@ T1_MODULES = {
     "C16": ["vt.contracts.syntactic"],
     "C15": ["vt.contracts.diskdict_effects"],
     "C13": ["vt.contracts.syntactic"],
-    "C01": ["vt.contracts.legs_rules"],
-    "C02": ["vt.contracts.legs_rules", "vt.contracts.syntactic"],
+    "C01": ["vt.contracts.legs_rules", "vt.contracts.core_mutators", "vt.contracts.utils_maxcounter"],
+    "C02": ["vt.contracts.legs_rules", "vt.contracts.syntactic", "vt.contracts.core_mutators", "vt.contracts.utils_maxcounter"],
     "C03": ["vt.contracts.utils_maxcounter", "vt.contracts.legs_rules", "vt.contracts.core_stats"],
-    "C04": ["vt.contracts.utils_maxcounter", "vt.contracts.legs_rules", "vt.contracts.core_stats", "vt.contracts.syntactic"],
+    "C04": ["vt.contracts.utils_maxcounter", "vt.contracts.legs_rules", "vt.contracts.core_stats", "vt.contracts.syntactic", "vt.contracts.core_mutators"],
     "C06": ["vt.contracts.core_slicing"],
     "C07": ["vt.contracts.utils_maxcounter", "vt.contracts.syntactic", "vt.contracts.slicer_costs"],
     "C05": ["vt.contracts.path_convert", "vt.contracts.processor_legs"],
